@@ -527,7 +527,7 @@ class DivPlugin(PrimitiveLeafPlugin):
         if (
             not out_is_f64
             and rhs_scalar is not None
-            and np.isclose(rhs_scalar, 2.0)
+            and float(rhs_scalar) == 2.0
             and getattr(lhs_producer, "op_type", "") == "Add"
             and (getattr(lhs_producer, "domain", "") or "") == ""
             and len(lhs_inputs) == 2
